@@ -758,10 +758,21 @@ def r14_1(ctx):
     for n, b, t in v.translate:
         key = f"{fn_of(t)['name']}@{_variant_key(t)}"
         ok, detail = classify(n, t["args"][-1])
+        if not ok and fn_of(t)["name"] == "translate_reader":
+            # standard input has no extension: the -f option alone is its whole resolution
+            rtr_ = strace(sup, n, t["args"][1])
+            reads_stdin = bool(rtr_.origin and rtr_.origin[0] == "call" and (fn_of(rtr_.origin[2]) or {}).get("def") == "std::io::Stdin::lock")
+            prim_ok_, pfield_ = is_primary(n, t["args"][-1])
+            if reads_stdin and prim_ok_:
+                ok, detail = True, f"-f alone (parsed field {pfield_}) for a call that reads standard input"
         ctx.ob(f"{key}:from-is-f-then-extension", ok, v.site(n), detail)
     # the parsed field that feeds `from` is the accumulator touched in the -f arm only
     okf, det = _from_field_is_dash_f(binc, parse_fn)
     ctx.ob("parsed-from-is-dash-f", okf, site(parse_fn), det)
+    _detect_only_on_none(ctx)
+
+
+def _detect_only_on_none(ctx):
     det_fn = common.detect_function(ctx.facts)
     lib = ctx.lib
     nn = 0
@@ -798,6 +809,11 @@ def r14_1(ctx):
                 ok = none_guarded(b, bb)
                 ctx.ob(f"detect-only-on-none:{b.name}", ok, site(b, bb), "detection is reached only through the None edge of the `from` argument" if ok else "detection can run although a source format was given")
     ctx.ob("detect-call-sites", nn >= 1, site(det_fn), f"{nn} call site(s) of the detection driver")
+
+
+@rule("R05.7", 2, "format detection (and its look-ahead of up to the TOML cap) runs only when no source format was given: an explicit format streams from the first byte", ["C05", "C14"])
+def r05_7(ctx):
+    _detect_only_on_none(ctx)
 
 
 def _from_field_is_dash_f(binc, parse_fn):
@@ -1054,16 +1070,31 @@ def _replaced_flag(b, m):
     return None
 
 
-@rule("R14.3", 5, "standard input is read at most once: the only stdin() site is dominated by a set-once bool guard whose set edge exits 1", ["C14", "C15"])
+@rule("R14.3", 5, "standard input is read at most once: the only stdin() site is dominated by a set-once bool guard whose set edge exits 1", ["C14", "C15", "C13"])
 def r14_3(ctx):
     v = cliview.view(ctx.facts)
     sup, ps = v.sup, v.ps
     binc = ctx.bin
     all_sites = [(b, bb) for b in binc.bodies for bb, t in b.calls() if (fn_of(t) or {}).get("def") == "std::io::stdin"]
-    ctx.ob("single-stdin-site", len(all_sites) == 1 and len(v.stdin) == 1, site(v.main), f"{len(all_sites)} std::io::stdin() site(s), {len(v.stdin)} reachable from main")
-    if len(v.stdin) != 1:
+    # one read site inside the input loop (guarded below); further sites are acceptable only where nothing can follow
+    # them that reads standard input again (`if no operands { translate stdin; return }`)
+    looped = [x for x in v.stdin if sup.on_cycle(x[0])]
+    single = [x for x in v.stdin if not sup.on_cycle(x[0])]
+    once_ok = True
+    for x in single:
+        after = v.reach_after(x[0])
+        if any(y[0] in after for y in v.stdin):
+            once_ok = False
+    ok_sites = len(all_sites) == len(v.stdin) and len(v.stdin) >= 1 and len(looped) <= 1 and once_ok
+    ctx.ob("single-stdin-site", ok_sites, site(v.main), f"{len(all_sites)} std::io::stdin() site(s), {len(v.stdin)} reachable from main: {len(looped)} in the input loop, {len(single)} after which no further read of standard input is reachable" if ok_sites else f"{len(all_sites)} std::io::stdin() site(s), {len(v.stdin)} reachable from main, {len(looped)} inside a loop: standard input can be read at more than one place in one run")
+    if not ok_sites:
         return
-    sn = v.stdin[0][0]
+    if not looped:
+        if len(v.stdin) == 1:
+            looped = list(v.stdin)  # the historical shape: one site, judged below
+        else:
+            return
+    sn = looped[0][0]
     found = False
     # idiom (i): `if G { bail }  G = true`;  idiom (ii): `if mem::replace(&mut G, true) { bail }`
     for gn in sorted(v.nodes, key=str):
@@ -1190,6 +1221,8 @@ def r14_3(ctx):
             if sw["k"] == "switch":
                 r = b.reachable_from(sw["otherwise"], removed_nodes=[x for vv, x in sw["targets"]])
                 empty = any(s["k"] == "assign" and s["rv"]["k"] == "aggregate" and s["rv"].get("adt") == vocab.bin_vocab(ctx.facts)["path"]["path"] and s["rv"].get("variant") == vocab.bin_vocab(ctx.facts)["path"]["stdin"] for x in r for s in b.blocks[x]["stmts"])
+                # or the arm translates standard input right there
+                empty = empty or any(b.blocks[x]["term"]["k"] == "call" and (fn_of(b.blocks[x]["term"]) or {}).get("def") == "std::io::stdin" for x in r)
     ctx.ob("no-files-means-stdin", empty, site(v.main), "an empty path list yields one stdin input")
 
 
